@@ -63,6 +63,10 @@ def main():
         e['serves_properties'] = [c['property_id'] for c in checks if c['engine'] == e['name'] or (e['name'] == 'seqx' and 'sq_' in c['level_note']) or (e['name'] == 'bbmc' and 'mc_' in c['level_note'])]
     na = [{'property_id': p, 'reason': 'no check registered yet (see DESIGN.md section 8)'} for p in all_ids if p not in claimed]
     old['checks'] = checks; old['engines'] = engines; old['not_applicable'] = na
+    old['notes'] = ('Generated by tools_manifest.py from props.py. No source hooks are needed: the harnesses compile /repo/src themselves. '
+                    'Defects of baidu/babylon found by the checks are repaired by unguarded "fix:" commits in /repo (19 so far) and listed in known_findings.json as fixed; '
+                    'one finding (C12, ReusableVector called with an argument aliasing its own element, 8 call shapes) is recorded there and printed as KNOWN-FINDING. '
+                    'Seeded property-breaking changes and which check reports them: seeded/RESULTS.md. DESIGN.md section 9 describes the machinery as built.')
     json.dump(old, open('/verif/MANIFEST.json', 'w'), indent=1)
     print('claimed', len(checks), 'not_applicable', [x['property_id'] for x in na])
 
